@@ -503,7 +503,10 @@ pub fn run(ctx: &Ctx, replay: Option<&Value>) -> i32 {
         return 2;
     }
     let t0 = std::time::Instant::now();
-    let family = pcore(tier);
+    let mut family = pcore(tier);
+    // traces of 2^14 .. 2^15 rows, one per dominating component (crate::progs::large): two of them under Blake3-96 in the quick
+    // tier, all six under three option sets in the thorough tier (RPO-128 on such a trace takes minutes)
+    family.extend(crate::progs::large(false).into_iter().map(|c| ProgCase { name: c.name, src: c.src, kernel: c.kernel, stack: c.stack, advice: c.advice }));
     let family_s = t0.elapsed().as_secs_f64();
     let names: BTreeSet<&str> = family.iter().map(|c| c.name.as_str()).collect();
     assert!(names.len() == family.len(), "harness: duplicate program names in pcore");
@@ -516,6 +519,9 @@ pub fn run(ctx: &Ctx, replay: Option<&Value>) -> i32 {
     for opt in ["rpo_128", "rpo_96", "blake3_128", "blake3_96"] {
         for (i, c) in family.iter().enumerate() {
             if opt == "rpo_128" && tier == Tier::Quick && !QUICK_RPO128.contains(&c.name.as_str()) {
+                continue;
+            }
+            if c.name.starts_with("large/") && (opt == "rpo_128" || (tier == Tier::Quick && (opt != "blake3_96" || !matches!(c.name.as_str(), "large/hasher" | "large/memory")))) {
                 continue;
             }
             jobs.push((i, opt));
